@@ -17,7 +17,7 @@ func init() {
 		Level: "exploration",
 		Rule: "semantics: page counts 0..40 x every expression of 1 and 2 terms (terms = even, odd, and {plain,!,n} x the 11 forms #, -#, #-, #-#, l, l-#, l-#-, -l, -l-#, #-l, #-l-# with numbers from {0,1,2,pc-1,pc,pc+1,99}); 3-term expressions for page counts {0,1,2,7} over the reduced number set {0,1,pc,pc+1} and negation marker '!' only (thorough: all page counts 0..40); checked for PagesForPageSelection, RemainingPagesForPageRemoval, PagesForPageCollection against an independent evaluator; syntax: every string of <=5 (thorough 6) tokens over {0,1,-,l,!,n,',',even,odd,x,space}: accepted iff in the grammar; " +
 			"non-trivial = an expression with >=2 terms, or a term whose page set is clipped by the page count",
-		Assume: []string{"negation inside page collections is only range-checked (the statement does not define it)"},
+		Assume: []string{"inside page collections a negated term is read as removing every occurrence of its pages collected so far (the statement says a negated term deselects its pages)"},
 		Run:    runC31,
 	})
 }
@@ -227,6 +227,15 @@ func c31eval(r *core.R, pc int, expr string, nontrivial bool) {
 		key := "collect:wrong-pages:" + c31class(expr)
 		if r.Want(key) {
 			r.Violation(key, fmt.Sprintf("PagesForPageCollection(%d, %q) = %v, syntax says %v", pc, expr, col, wc), rep())
+		}
+	}
+	if !plain {
+		// "a term ... when negated, deselects its pages": every occurrence collected so far goes
+		if wn := pagesel.CollectNeg(terms, pc); !sameInts(col, wn) {
+			key := "collect:negation:" + c31class(expr)
+			if r.Want(key) {
+				r.Violation(key, fmt.Sprintf("PagesForPageCollection(%d, %q) = %v, but a negated term deselects every occurrence of its pages collected so far: %v", pc, expr, col, wn), rep())
+			}
 		}
 	}
 }
